@@ -485,12 +485,12 @@ CK_RV Token::getTokenInfo(CK_TOKEN_INFO_PTR info)
 
 		if (token->getTokenLabel(label))
 		{
-			strncpy((char*) info->label, (char*) label.byte_str(), label.size());
+			strncpy((char*) info->label, (char*) label.byte_str(), label.size() < 32 ? label.size() : 32);
 		}
 
 		if (token->getTokenSerial(serial))
 		{
-			strncpy((char*) info->serialNumber, (char*) serial.byte_str(), serial.size());
+			strncpy((char*) info->serialNumber, (char*) serial.byte_str(), serial.size() < 16 ? serial.size() : 16);
 		}
 	}
 	else
